@@ -344,6 +344,11 @@ struct Global {
 
 fn eval_index(fxs: &[PackFx], g: &Global, c: &IndexCase) -> Verdict {
     let p = fxs.iter().find(|p| p.name == c.pack).unwrap_or_else(|| vkit::machinery!("unknown pack {}", c.pack));
+    check_pack(p, g, c)
+}
+
+/// Store `p` through the API/mode of `c` under every thread limit of `c` and compare with git's answers held in `p`.
+fn check_pack(p: &PackFx, g: &Global, c: &IndexCase) -> Verdict {
     let mut first: Option<Written> = None;
     for &tl in &c.thread_limits {
         let dir = vkit::scratch::Dir::new("c10-out");
@@ -412,6 +417,20 @@ fn eval_index(fxs: &[PackFx], g: &Global, c: &IndexCase) -> Verdict {
                 }
             }
             g.objects_read_back.fetch_add(p.expected.len() as u64, Relaxed);
+            // gitoxide's own full verification of what it wrote (checksums, CRC32s, every object decoded and re-hashed)
+            if let Err(e) = b.verify_integrity::<gix_pack::cache::Never, _>(
+                &mut Discard,
+                &INTERRUPT,
+                gix_pack::index::verify::integrity::Options { thread_limit: Some(1), ..Default::default() },
+            ) {
+                let mut msg = e.to_string();
+                let mut src = std::error::Error::source(&e);
+                while let Some(s) = src {
+                    msg.push_str(&format!(" <- {s}"));
+                    src = s.source();
+                }
+                return bad("verify-integrity", format!("thread_limit {tl}: Bundle::verify_integrity fails on the written bundle: {msg}"));
+            }
         }
         match &first {
             None => first = Some(w),
@@ -438,6 +457,276 @@ fn eval_index(fxs: &[PackFx], g: &Global, c: &IndexCase) -> Verdict {
     } else {
         ok_trivial(class)
     }
+}
+
+
+// ---------------------------------------------------------------------------------------------- hand-assembled thin packs
+
+fn adler32(d: &[u8]) -> u32 {
+    let (mut a, mut b) = (1u32, 0u32);
+    for &x in d {
+        a = (a + x as u32) % 65521;
+        b = (b + a) % 65521;
+    }
+    (b << 16) | a
+}
+/// zlib stream of stored blocks only: its length is an exact function of the content length
+fn zlib_stored(d: &[u8]) -> Vec<u8> {
+    let mut o = vec![0x78, 0x01];
+    let chunks: Vec<&[u8]> = if d.is_empty() { vec![&d[..]] } else { d.chunks(65535).collect() };
+    for (i, c) in chunks.iter().enumerate() {
+        o.push((i + 1 == chunks.len()) as u8);
+        o.extend_from_slice(&(c.len() as u16).to_le_bytes());
+        o.extend_from_slice(&(!(c.len() as u16)).to_le_bytes());
+        o.extend_from_slice(c);
+    }
+    o.extend_from_slice(&adler32(d).to_be_bytes());
+    o
+}
+fn stored_len(n: usize) -> usize {
+    2 + 5 * n.div_ceil(65535).max(1) + n + 4
+}
+/// type+size header of a pack entry (git's encode_in_pack_object_header), independent of gitoxide's encoder
+fn type_size(type_id: u8, mut size: u64) -> Vec<u8> {
+    let mut c = (type_id << 4) | (size & 15) as u8;
+    size >>= 4;
+    let mut o = Vec::new();
+    while size != 0 {
+        o.push(c | 0x80);
+        c = (size & 127) as u8;
+        size >>= 7;
+    }
+    o.push(c);
+    o
+}
+/// git's ofs-delta distance encoding: 1 byte below 128, 2 bytes below 16512, ...
+fn ofs_varint(mut d: u64) -> Vec<u8> {
+    let mut b = vec![(d & 127) as u8];
+    d >>= 7;
+    while d != 0 {
+        d -= 1;
+        b.push(0x80 | (d & 127) as u8);
+        d >>= 7;
+    }
+    b.reverse();
+    b
+}
+fn delta_varint(mut n: u64) -> Vec<u8> {
+    let mut o = Vec::new();
+    loop {
+        let c = (n & 127) as u8;
+        n >>= 7;
+        if n == 0 {
+            o.push(c);
+            return o;
+        }
+        o.push(c | 0x80);
+    }
+}
+/// delta: copy the first `copy` bytes of the base, then insert `tag`
+fn make_delta(base: &[u8], copy: usize, tag: &[u8]) -> (Vec<u8>, Vec<u8>) {
+    let mut d = delta_varint(base.len() as u64);
+    d.extend(delta_varint((copy + tag.len()) as u64));
+    if copy > 0 {
+        let mut cmd = 0x80u8;
+        let mut bytes = Vec::new();
+        for i in 0..3 {
+            let b = ((copy >> (8 * i)) & 0xff) as u8;
+            if b != 0 {
+                cmd |= 0x10 << i;
+                bytes.push(b);
+            }
+        }
+        d.push(cmd);
+        d.extend(bytes);
+    }
+    d.push(tag.len() as u8);
+    d.extend_from_slice(tag);
+    let mut r = base[..copy].to_vec();
+    r.extend_from_slice(tag);
+    (d, r)
+}
+fn sha1(d: &[u8]) -> ObjectId {
+    let mut h = gix_features::hash::hasher(gix_hash::Kind::Sha1);
+    h.update(d);
+    ObjectId::from(h.digest())
+}
+fn blob_id(d: &[u8]) -> ObjectId {
+    let mut v = format!("blob {}\0", d.len()).into_bytes();
+    v.extend_from_slice(d);
+    sha1(&v)
+}
+fn x_content(x_len: usize) -> Vec<u8> {
+    vkit::enumerate::lcg_bytes(x_len, 0xe7 + x_len as u64)
+}
+
+/// Layout [A blob][R ref-delta -> external X][O ofs-delta -> A or R][Z blob]
+#[derive(Serialize, Deserialize, Hash, Clone, Debug)]
+struct HandCase {
+    /// content length of the external base X (incompressible): decides the length of the entry gitoxide injects
+    x_len: usize,
+    /// O's base: false = A (lies before the injection point), true = R (the entry right behind the injected base)
+    o_on_r: bool,
+    /// distance O -> A in the thin pack as received (ignored if `o_on_r`)
+    d_old: u64,
+}
+
+struct HandPack {
+    bytes: Vec<u8>,
+    /// (name, id, content, offset in the thin pack)
+    objects: Vec<(&'static str, ObjectId, Vec<u8>, u64)>,
+    x_id: ObjectId,
+}
+
+fn build_hand(c: &HandCase) -> Option<HandPack> {
+    let x = x_content(c.x_len);
+    let x_id = blob_id(&x);
+    let (delta_r, r_result) = make_delta(&x, x.len(), b"+R");
+    let r_len = type_size(7, delta_r.len() as u64).len() + 20 + stored_len(delta_r.len());
+    let a: Vec<u8> = if c.o_on_r {
+        vkit::enumerate::lcg_bytes(40, 5)
+    } else {
+        let a_len = (c.d_old as usize).checked_sub(r_len)?;
+        let n = (0..=a_len).rev().take(20).find(|&n| type_size(3, n as u64).len() + stored_len(n) == a_len)?;
+        vkit::enumerate::lcg_bytes(n, 5)
+    };
+    let mut pack = b"PACK\0\0\0\x02\0\0\0\x04".to_vec();
+    let mut objects = Vec::new();
+    let a_off = pack.len() as u64;
+    pack.extend(type_size(3, a.len() as u64));
+    pack.extend(zlib_stored(&a));
+    objects.push(("A", blob_id(&a), a.clone(), a_off));
+    let r_off = pack.len() as u64;
+    pack.extend(type_size(7, delta_r.len() as u64));
+    pack.extend_from_slice(x_id.as_bytes());
+    pack.extend(zlib_stored(&delta_r));
+    if pack.len() as u64 - r_off != r_len as u64 {
+        vkit::machinery!("hand pack: length bookkeeping of R is wrong");
+    }
+    objects.push(("R", blob_id(&r_result), r_result.clone(), r_off));
+    let o_off = pack.len() as u64;
+    let (o_base, o_base_off) = if c.o_on_r { (&r_result, r_off) } else { (&a, a_off) };
+    if !c.o_on_r && o_off - a_off != c.d_old {
+        vkit::machinery!("hand pack: distance O->A is {} instead of {}", o_off - a_off, c.d_old);
+    }
+    let (delta_o, o_result) = make_delta(o_base, o_base.len().min(8), b"+O");
+    pack.extend(type_size(6, delta_o.len() as u64));
+    pack.extend(ofs_varint(o_off - o_base_off));
+    pack.extend(zlib_stored(&delta_o));
+    objects.push(("O", blob_id(&o_result), o_result, o_off));
+    let z = b"Z: the entry behind the re-pointed ofs-delta".to_vec();
+    let z_off = pack.len() as u64;
+    pack.extend(type_size(3, z.len() as u64));
+    pack.extend(zlib_stored(&z));
+    objects.push(("Z", blob_id(&z), z, z_off));
+    let trailer = sha1(&pack);
+    pack.extend_from_slice(trailer.as_bytes());
+    objects.push(("X", x_id, x, 0));
+    Some(HandPack { bytes: pack, objects, x_id })
+}
+
+fn hand_x_lens(quick: bool) -> Vec<usize> {
+    if quick {
+        vec![0, 8, 9, 10, 11, 60, 300]
+    } else {
+        let mut v: Vec<usize> = (0..=24).collect();
+        v.extend([40, 60, 100, 127, 128, 129, 300, 2000, 16300, 16500, 20000]);
+        v
+    }
+}
+
+#[derive(Default)]
+struct HandStats {
+    crossed_128: AtomicU64,
+    crossed_16512: AtomicU64,
+    net_zero: AtomicU64,
+    net_zero_on_r: AtomicU64,
+}
+
+fn eval_hand(receiver: &Path, g: &Global, hs: &HandStats, c: &HandCase) -> Verdict {
+    let hp = build_hand(c).unwrap_or_else(|| vkit::machinery!("hand case {c:?} cannot be laid out"));
+    // oracle: git receives the same thin pack in a throw-away copy of the receiver
+    let copy = vkit::scratch::Dir::new("c10-handrecv");
+    vkit::scratch::copy_tree(receiver, copy.path()).unwrap_or_else(|e| vkit::machinery!("copy receiver: {e}"));
+    let o = vkit::git::try_git_in(copy.path(), &["index-pack", "--fix-thin", "--stdin"], &hp.bytes);
+    if !o.ok {
+        vkit::machinery!("git index-pack --fix-thin rejects the hand-assembled pack {c:?}: {}", o.err_text());
+    }
+    let new_idx: Vec<String> = fx::list_dir(&copy.join("objects/pack")).into_iter().filter(|f| f.ends_with(".idx")).collect();
+    if new_idx.len() != 1 {
+        vkit::machinery!("expected one idx after index-pack --fix-thin, got {new_idx:?}");
+    }
+    let idx = std::fs::read(copy.join("objects/pack").join(&new_idx[0])).unwrap_or_else(|e| vkit::machinery!("read idx: {e}"));
+    let git_ids = show_index_ids(copy.path(), &idx);
+    let ids: Vec<ObjectId> = hp.objects.iter().map(|o| o.1).collect();
+    let git_objs = fx::cat_file_batch(copy.path(), &ids);
+    for (name, id, content, _) in &hp.objects {
+        match git_objs.get(id) {
+            Some((Kind::Blob, d)) if d == content => {}
+            _ => vkit::machinery!("git reads object {name} of the hand-assembled pack differently than intended ({c:?})"),
+        }
+    }
+    if git_ids != ids.iter().copied().collect::<BTreeSet<_>>() {
+        vkit::machinery!("git's fixed pack holds {} objects, expected the 5 intended ones", git_ids.len());
+    }
+    let p = PackFx {
+        name: format!("hand-{c:?}"),
+        thin: true,
+        bytes: hp.bytes.clone(),
+        base_objects: Some(receiver.join("objects")),
+        git_idx: None,
+        git_ids,
+        expected: git_objs,
+        n_entries: 4,
+        n_ofs: 1,
+        n_ref: 1,
+    };
+    for (api, tls) in [(Api::Directory, vec![1u16, 2, 4]), (Api::DirectoryEager, vec![2u16])] {
+        let r = check_pack(&p, g, &IndexCase { pack: p.name.clone(), api, mode: IterMode::Verify, thread_limits: tls });
+        if r.is_err() {
+            return r.map_err(|m| format!("{m} [{api:?}]"));
+        }
+    }
+    // classification: where did gitoxide put the entries? (only reached when everything above held)
+    let dir = vkit::scratch::Dir::new("c10-handcls");
+    let w = match index_with(Api::Directory, IterMode::Verify, 1, &hp.bytes, p.base_objects.as_deref(), dir.path()) {
+        Ok(w) => w,
+        Err(m) => return bad("rejected-valid", m),
+    };
+    let b = gix_pack::Bundle::at(dir.join(format!("pack-{}.idx", w.data_hash.to_hex())), gix_hash::Kind::Sha1)
+        .unwrap_or_else(|e| vkit::machinery!("reopen bundle: {e}"));
+    let off = |name: &str| -> u64 {
+        let id = hp.objects.iter().find(|o| o.0 == name).expect("known").1;
+        b.index.lookup(id).map(|i| b.index.pack_offset_at_index(i)).unwrap_or_else(|| vkit::machinery!("object {name} missing although readback passed"))
+    };
+    let old = |name: &str| hp.objects.iter().find(|o| o.0 == name).expect("known").3;
+    let _ = hp.x_id;
+    let base = if c.o_on_r { "R" } else { "A" };
+    let (d_before, d_after) = (old("O") - old(base), off("O") - off(base));
+    let net = off("Z") as i64 - old("Z") as i64;
+    let width = |d: u64| ofs_varint(d).len();
+    let mut class = String::from(if c.o_on_r { "O-on-R" } else { "O-on-A" });
+    if width(d_after) > width(d_before) {
+        class.push_str(&format!("/ofs-header-grew-at-{}", if d_after < 16512 { 128 } else { 16512 }));
+        if d_after < 16512 { &hs.crossed_128 } else { &hs.crossed_16512 }.fetch_add(1, Relaxed);
+    } else if width(d_after) < width(d_before) {
+        class.push_str("/ofs-header-shrank");
+    } else {
+        class.push_str(&format!("/same-width-{}", width(d_after)));
+    }
+    // net shift seen by O itself = shift of everything behind R = injected base + header change of R
+    let shift_at_o = off("O") as i64 - old("O") as i64;
+    if shift_at_o == 0 {
+        class.push_str("/net-zero");
+        hs.net_zero.fetch_add(1, Relaxed);
+        if c.o_on_r {
+            hs.net_zero_on_r.fetch_add(1, Relaxed);
+        }
+    } else if shift_at_o < 0 {
+        class.push_str("/net-negative");
+    }
+    let _ = net;
+    ok(class)
 }
 
 // ---------------------------------------------------------------------------------------------- faults
@@ -554,6 +843,49 @@ pub fn run(run: &'static Run) {
         },
         |c: &IndexCase| eval_index(fxs, g, c),
     );
+
+    // hand-assembled thin packs: an existing ofs-delta is re-pointed across a varint-width boundary of its base distance
+    let receiver: &'static PathBuf = Box::leak(Box::new({
+        let dir = vkit::scratch::Dir::new("c10-receiver").keep();
+        vkit::git::init_bare(&dir);
+        for x_len in hand_x_lens(false) {
+            git_in(&dir, &["hash-object", "-w", "--stdin"], &x_content(x_len));
+        }
+        dir
+    }));
+    let hs: &'static HandStats = Box::leak(Box::new(HandStats::default()));
+    let hand_cases: Vec<HandCase> = {
+        let mut v = Vec::new();
+        for &x_len in &hand_x_lens(run.quick()) {
+            v.push(HandCase { x_len, o_on_r: true, d_old: 0 });
+            for b in [128u64, 16512] {
+                // just below the boundary (crosses for any net growth), at/above it (control), far below (control unless the base is big)
+                for d_old in [b - 3, b - 2, b - 1, b, b + 1, b - 60] {
+                    let c = HandCase { x_len, o_on_r: false, d_old };
+                    if build_hand(&c).is_some() {
+                        v.push(c);
+                    }
+                }
+            }
+        }
+        v
+    };
+    run.cov("hand_assembled_thin_packs", hand_cases.len());
+    run.sub_with(
+        "thin-handmade",
+        vkit::Opts::default().chunk(64).watchdog(120.0).isolate(),
+        |emit| {
+            for c in &hand_cases {
+                emit(c.clone());
+            }
+        },
+        |c: &HandCase| eval_hand(receiver, g, hs, c),
+    );
+    run.cov("handmade_ofs_header_grew_at_128", hs.crossed_128.load(Relaxed));
+    run.cov("handmade_ofs_header_grew_at_16512", hs.crossed_16512.load(Relaxed));
+    run.cov("handmade_net_zero_shift", hs.net_zero.load(Relaxed));
+    run.cov("handmade_net_zero_shift_with_ofs_delta_on_the_ref_delta", hs.net_zero_on_r.load(Relaxed));
+    run.require("hand-assembled packs made an ofs-delta header grow at 128 and at 16512", hs.crossed_128.load(Relaxed) > 0 && hs.crossed_16512.load(Relaxed) > 0);
 
     // fault targets: smallest of each shape
     let pick = |f: &dyn Fn(&PackFx) -> bool| fxs.iter().filter(|p| f(p)).min_by_key(|p| p.bytes.len()).map(|p| p.name.clone());
